@@ -38,10 +38,15 @@ func tagIfParser(doc *Parser, start *Token, arguments *Parser) (INodeTag, *Error
 	}
 
 	// Check the rest
+	elseSeen := false
 	for {
 		wrapper, tagArgs, err := doc.WrapUntilTag("elif", "else", "endif")
 		if err != nil {
 			return nil, err
+		}
+		if elseSeen && wrapper.Endtag != "endif" {
+			// The else-branch is the last one
+			return nil, tagArgs.Error("Only 'endif' is allowed after 'else'.", nil)
 		}
 		ifNode.wrappers = append(ifNode.wrappers, wrapper)
 
@@ -60,6 +65,9 @@ func tagIfParser(doc *Parser, start *Token, arguments *Parser) (INodeTag, *Error
 			if tagArgs.Count() > 0 {
 				// else/endif can't take any conditions
 				return nil, tagArgs.Error("Arguments not allowed here.", nil)
+			}
+			if wrapper.Endtag == "else" {
+				elseSeen = true
 			}
 		}
 
